@@ -119,6 +119,23 @@ pub fn programs() -> Vec<(String, Module)> {
             vec![("spin".into(), spin_clone(k))],
         ));
     }
+    // a host function that swallows the error of a callback which works for a while and then FAILS
+    // (not with Timeout): the instructions of the failed callee count like all others
+    for k in [20i64, 100] {
+        for (ename, fail) in [("getprop-on-int", sink(C::GetProperty(b(int(1)), b(int(0))))), ("missing-global", sink(rv("never_assigned"))), ("call-non-function", sink(C::DynCall(b(int(3)), vec![])))] {
+            let worker = func(&[], vec![sv("n", int(0)), C::Repeat { n: b(int(k)), i: None, body: b(sv("n", add(rv("n"), int(1)))) }, fail.clone(), C::Return(b(rv("n")))]);
+            v.push(m1(
+                &format!("try-call-failing-worker{k}-{ename}"),
+                vec![sv("c", int(0)), C::Repeat { n: b(int(8)), i: None, body: b(comp(vec![sink(native("try_call", vec![C::Function("worker".into())])), sv("c", add(rv("c"), int(1)))])) }, sg("done", rv("c"))],
+                vec![("worker".into(), worker.clone())],
+            ));
+            v.push(m1(
+                &format!("try-call-forever-outer-failing-worker{k}-{ename}"),
+                vec![sv("c", int(0)), C::While(b(int(1)), b(comp(vec![sink(native("try_call", vec![C::Function("worker".into())])), sv("c", add(rv("c"), int(1)))])))],
+                vec![("worker".into(), worker)],
+            ));
+        }
+    }
     // natives invoked as function values (CallFunction dispatches to the native), in loops so that
     // a budget error per call accumulates
     for k in [4i64, 30, -1] {
